@@ -77,11 +77,18 @@ MatchLeafMV(T, mv, c, env) ==
       [] mv.ty = "multicap" -> Insert(T, env, mv.name, c)
       [] OTHER              -> [ok |-> FALSE, env |-> env]
 
+\* A pattern token is compared with the candidate's whole text, whatever the candidate is: a token of the pattern can
+\* stand against a candidate that has children (a pattern leaf that is a parse error matches any kind; some kinds occur
+\* with and without children).  Node tables carry the whole text of a node with children only when it is short
+\* (n.tk = "text known"); an unknown text decides nothing.
+TextKnown(n) == IF "tk" \in DOMAIN n THEN n.tk ELSE TRUE
+TextAgrees(g, n) == IF TextKnown(n) THEN g.t = n.t ELSE TRUE
+
 \* ---- MatchStrictness ------------------------------------------------------
 \* match_terminal: "both" | "skipboth" | "skipgoal" | "skipcand" | "nomatch"
 MatchTerminal(s, g, n) ==
     LET km == KindsMatch(g.kid, n.kid) IN
-    IF km /\ (~g.nm \/ g.t = n.t) THEN "both"
+    IF km /\ (~g.nm \/ TextAgrees(g, n)) THEN "both"
     ELSE IF s = "signature" /\ km THEN "both"
     ELSE LET sg == CASE s \in {"cst", "smart"} -> FALSE [] OTHER -> ~g.nm
              sc == CASE s = "cst" -> FALSE
